@@ -489,7 +489,12 @@ func (e *escaper) escapeTemplate(c context, n *parse.TemplateNode) context {
 func mangle(c context, templateName string) string {
 	// The mangled name for the default context is the input templateName.
 	if c.state == stateText {
-		return templateName
+		if _, err := sanitizerForElementContent(c); err == nil {
+			return templateName
+		}
+		// Actions are not allowed in the content of this element: analyse a separate copy
+		// instead of reusing the analysis made for element contents where they are.
+		return templateName + "$htmltemplate_" + c.state.String() + "_" + c.element.String() + "_Invalid"
 	}
 	s := templateName + "$htmltemplate_" + c.state.String()
 	if c.delim != 0 {
